@@ -99,6 +99,11 @@ class StubSim(mosaik_api_v3.Simulator):
         if "step" in self.ctx.gate_kinds and self.ctx.gated:
             yield self.ctx.loop.gate((self.sid, "step", k))
         sp = self.spec
+        if str(k) in (sp.get("raise_in_step") or {}):
+            exc = {"ValueError": ValueError, "KeyError": KeyError, "RuntimeError": RuntimeError}[
+                sp["raise_in_step"][str(k)]]
+            self.ctx.ev("X", self.sid, "raises", sp["raise_in_step"][str(k)], k)
+            raise exc(f"error inside step {k} of {self.sid}")
         lat = self.ctx.latency(self, k) if getattr(self.ctx, "latency", None) else 0
         if lat:
             import asyncio
